@@ -1,5 +1,6 @@
 //! Engines shared by all property checks.
 pub mod choice;
+pub mod crumb;
 pub mod known;
 pub mod report;
 
